@@ -35,7 +35,12 @@ type cgGen struct {
 	endAt    time.Duration // first instant a function observed ctx.Done (-1 = not yet)
 	endStep  int
 	ended    bool
+	ctx      context.Context // the generation's context, as handed to its first function
 }
+
+// over reports whether the generation has ended as the library sees it (its
+// context is done), which may be a few steps before a function observes it.
+func (g *cgGen) over() bool { return g.ended || (g.ctx != nil && g.ctx.Err() != nil) }
 
 type cgMember struct {
 	k          int
@@ -66,6 +71,7 @@ func cgroupScenario(s *Sim, params map[string]string) {
 	}
 	top := cl.AddTopic("ct", t.Range("cfg", 1, 4), func(int) int32 { return int32(1 + t.Intn("cfg", nb)) })
 	cl.AddTopic("cu", t.Range("cfg", 1, 3), func(int) int32 { return int32(1 + t.Intn("cfg", nb)) })
+	cl.MetaOrder = Pick(t, "cfg", 0, 0, 1, 2, 3) // brokers list partitions in no particular order
 	g := cl.group("cgrp")
 	installAssignmentMonitor(s, cl)
 	// members may subscribe to different topic sets (a rolling deploy that
@@ -159,7 +165,12 @@ func cgroupScenario(s *Sim, params map[string]string) {
 					f.selfExit = t.Intn("work", 5) == 0
 					selfAfter := time.Duration(t.Range("work", 1, 8000)) * time.Millisecond
 					linger := time.Duration(Pick(t, "work", 0, 0, 0, 3, 40)) * time.Millisecond
-					f.lateStart = cgn.ended
+					// A function handed to Start after the generation has ended is
+					// run but not waited for (documented edge case). Whether the
+					// library saw this Start before or after the end is only
+					// certain when the generation's context says the same thing
+					// before and after the call; in between, nothing is required.
+					before := cgn.over()
 					gen.Start(func(ctx context.Context) {
 						f.errAtStart = ctx.Err()
 						if f.selfExit {
@@ -185,12 +196,14 @@ func cgroupScenario(s *Sim, params map[string]string) {
 						}
 						f.exited, f.exitStep, f.exitAt = true, s.Step, s.Now()
 					})
+					f.lateStart = before || cgn.over()
 					f.startStep, f.startAt = s.Step, s.Now()
 					cgn.fns = append(cgn.fns, f)
 				}
 				// always one watcher so that the end of the generation is observed
 				f0 := &cgFn{gen: gi}
 				gen.Start(func(ctx context.Context) {
+					cgn.ctx = ctx
 					s.WaitDone(ctx)
 					f0.doneStep, f0.doneAt = s.Step, s.Now()
 					if !cgn.ended {
@@ -200,6 +213,9 @@ func cgroupScenario(s *Sim, params map[string]string) {
 				})
 				f0.startStep, f0.startAt = s.Step, s.Now()
 				cgn.fns = append(cgn.fns, f0)
+				for cgn.ctx == nil && !s.Failed() {
+					s.Pause("f0") // until the watcher runs and publishes the generation's context
+				}
 				for i := 0; i < nf; i++ {
 					if t.Intn("work", 4) == 0 {
 						d := time.Duration(t.Range("work", 1, 5000)) * time.Millisecond
